@@ -26,7 +26,7 @@
     the answer of the real pruner on the real segment directory, in the theorems a function about
     which only "a superset of the zones holding a satisfying row" is assumed (C08). *)
 From Coq Require Import ZArith NArith List Bool.
-From Snel Require Import Base.Bytes Model.Value Model.Expr Model.Sem.
+From Snel Require Import Base.Bytes Gen.Params Model.Value Model.Expr Model.Sem.
 Import ListNotations.
 
 Record leaf := mk_leaf { l_field : bytes; l_op : cmp; l_lit : lit }.
@@ -109,17 +109,32 @@ Section Collect.
   (** all zone ids of the segment *)
   Variable all : list zid.
 
+  (** a pruner that answers None: no zones, or (after the repair) all zones of the type — read from
+      the arms of [select_for_segment] (Gen/Params.v) *)
+  Definition none_zones (st : strategy) : list czone :=
+    let no_zones := match st with
+                    | STemporal => query_none_no_zones_temporal
+                    | SEnum => query_none_no_zones_enum
+                    | SZoneXor => query_none_no_zones_zonexor
+                    | _ => false
+                    end in
+    if no_zones then [] else tagged all.
+
   Definition leaf_zones (l : leaf) : list czone :=
     match choose sch l with
     | SFullScan => tagged all
     | SSurf => match ans l with Some zs => untagged zs | None => tagged all end
-    | _ => if serves sch l then match ans l with Some zs => untagged zs | None => [] end else []
+    | st => if serves sch l
+            then match ans l with Some zs => untagged zs | None => none_zones st end
+            else none_zones st
     end.
 
   (** [neg = true]: the zones of NOT g *)
   Fixpoint collect (neg : bool) (g : fg) : list czone :=
     match g with
-    | FLeaf l => if neg then minus (tagged all) (leaf_zones l) else leaf_zones l
+    | FLeaf l => if neg
+                 then (if query_not_leaf_complement then minus (tagged all) (leaf_zones l) else tagged all)
+                 else leaf_zones l
     | FAnd a b => if neg then union (collect true a) (collect true b)
                   else inter (collect false a) (collect false b)
     | FOr a b => if neg then inter (collect true a) (collect true b)
